@@ -33,6 +33,15 @@ theorem pri_decodes (fac lvl : Nat) : pri fac lvl / 8 = fac ∧ pri fac lvl % 8 
   have h := severity_lt_8 lvl
   omega
 
+/-- facility and severity can be read back from the PRI value: two lines with the same PRI come from
+    the same facility and carry the same severity -/
+theorem pri_injective (fac fac' lvl lvl' : Nat) (h : pri fac lvl = pri fac' lvl') :
+    fac = fac' ∧ severity lvl = severity lvl' := by
+  have h1 := pri_decodes fac lvl
+  have h2 := pri_decodes fac' lvl'
+  rw [h] at h1
+  exact ⟨h1.1.symm.trans h2.1, h1.2.symm.trans h2.2⟩
+
 theorem severity_monotone (l l' : Nat) (h : l ≤ l') : severity l ≤ severity l' := by
   unfold severity
   repeat' split
